@@ -15,4 +15,5 @@ echo "SEED $sid demo_with=$rc_with demo_without=$rc_without suite: $suite"
 d=/verif/seeded/$sid; mkdir -p "$d"
 cp /tmp/seed-$sid.diff "$d/patch.diff"; cp demo.py "$d/demo.py"; cp NOTES.md "$d/NOTES.md" 2>/dev/null
 printf '{"demo_exit_with_change": %s, "demo_exit_without_change": %s, "suite_with_change": "%s"}\n' "$rc_with" "$rc_without" "$suite" > "$d/confirm.json"
+[ -n "$SKIP_SENS" ] && exit 0
 cd /verif && tools/sens.sh "$d/patch.diff" "$prop" "$runs" 2>&1 | grep -E "^SENS|^  class|HARNESS" | cut -c1-300 | awk 'NR<=4 || /^SENS/' | tee "$d/check_result.txt"
